@@ -276,7 +276,19 @@ pub fn run(ctx: &Ctx) -> i32 {
             }
         }
     }
-    for (n, d) in [(i32::MAX, 2), (i32::MIN + 1, 2), (1, i32::MAX), (-1, i32::MAX), (i32::MAX, i32::MAX - 1)] {
+    for (n, d) in [
+        (i32::MAX, 2),
+        (i32::MIN + 1, 2),
+        (1, i32::MAX),
+        (-1, i32::MAX),
+        (i32::MAX, i32::MAX - 1),
+        // the most negative numerator (its magnitude is not an i32)
+        (i32::MIN, 3),
+        (i32::MIN, 5),
+        (i32::MIN, i32::MAX),
+        (i32::MIN + 3, 2),
+        (i32::MAX - 2, 2),
+    ] {
         ratios.push((n, d));
     }
     let idents = identifiers();
